@@ -3,6 +3,9 @@
 use lightning::chain;
 use std::collections::HashMap;
 use std::sync::atomic::{AtomicU32, Ordering};
+#[cfg(feature = "verif-hooks")]
+use crate::verif_sync::{Arc, Mutex};
+#[cfg(not(feature = "verif-hooks"))]
 use std::sync::{Arc, Mutex};
 
 use teos_common::appointment::{compute_appointment_slots, Locator};
